@@ -213,7 +213,7 @@ def register(R):
                                                                 B(True)),
         }
 
-    R.contract(f'{MGR}._shutdown', props=['C20'], params=dict(cancel=Bool), checks=shutdown_checks, raises={})
+    R.contract(f'{MGR}._shutdown', props=['C20', 'C18'], params=dict(cancel=Bool), checks=shutdown_checks, raises={})
     for q, n in (('_cancel_transfers', 1), ('_finish_transfers', 1), ('_wait_transfers_done', 1)):
         R.contract(f'{MGR}.{q}', params={}, inline=True, loops={0: trivial_loop()})
 
